@@ -158,7 +158,43 @@ def run(ctx: Ctx):
 
     for name, module, _x in corpus_modules(ctx.rng("corpus"), 150 if q else 4000, max_ops=80):
         roundtrip_case(ctx, module, {"source": "corpus", "file": name}, cases, metas)
-    ctx.log(f"{n_alpha} hint-alphabet modules, {n_gen} generated, {len(cases) - n_alpha - n_gen} corpus chunks printed and re-parsed")
+    n_corpus = len(cases) - n_alpha - n_gen
+    # 5. pass outputs: corpus chunks after the pipeline of their own RUN line (the IR a pass leaves is printed too)
+    import contextlib
+
+    from . import c17
+
+    prng = ctx.rng("pass-outputs")
+    idx = [(n, c, p) for (n, c, p) in c17.corpus_index(ctx.rng("corpus-index"), None) if p and len(c) < 8000]
+    prng.shuffle(idx)
+    from xdsl.transforms import get_all_passes
+
+    allp = get_all_passes()
+    n_out = 0
+    for name, chunk, pipes in idx:
+        if n_out >= (120 if q else 3000):
+            break
+        specs = [sp for sp in c17.parse_specs(prng.choice(pipes)) if sp.name in allp]
+        if not specs:
+            continue
+        m = c17.parse_input(chunk)
+        if m is None:
+            continue
+        try:
+            with time_limit(30.0), contextlib.redirect_stdout(io.StringIO()), contextlib.redirect_stderr(io.StringIO()):
+                xc = c17.all_ctx()
+                for sp in specs:
+                    allp[sp.name]().from_pass_spec(sp).apply(xc, m)
+                m.verify()
+        except BaseException as e:  # noqa: BLE001   (a failing / invalid pass output is C17's business)
+            if isinstance(e, (KeyboardInterrupt, SystemExit)):
+                raise
+            continue
+        if sum(1 for _ in m.walk()) > 120:
+            continue
+        n_out += 1
+        roundtrip_case(ctx, m, {"source": "pass output", "file": name + " after " + ",".join(sp.name for sp in specs)}, cases, metas)
+    ctx.log(f"{n_alpha} hint-alphabet modules, {n_gen} generated, {n_corpus} corpus chunks, {n_out} pass outputs printed and re-parsed")
     judged = [c for c in cases if not c["parse_failed"]]
     idx_map = [i for i, c in enumerate(cases) if not c["parse_failed"]]
     res = casecheck.run_cases("ir/IRIsoCases.tla", [{"c": c["c"], "pairs": c["pairs"]} for c in judged], min_per_shard=10)
@@ -185,9 +221,9 @@ def run(ctx: Ctx):
         ctx.violate(f"[{m['source']}] re-parsed IR is not equivalent to the printed IR: {tail[0]}\n{m['text'][:600]}",
                     dict(key_of(m), clause="RoundTripEquivalent:" + tail[0], text=m["text"][:2000]), clause="RoundTripEquivalent:" + tail[0])
     ctx.coverage.update({"evaluations": len(cases), "distinct_nontrivial": len({m["text"] for m in metas}), "hint_alphabet_modules": n_alpha, "generated": n_gen,
-                         "corpus_chunks": len(cases) - n_alpha - n_gen, "judge_states": res.states,
+                         "corpus_chunks": n_corpus, "pass_outputs": n_out, "judge_states": res.states,
                          "rule": "all (quick: 500 sampled) assignments of 7 raw value hints to 4 values + all block-hint pairs on a 2-block region; generated trees with "
-                                 "random hints (incl. $ . - characters); parseable corpus chunks <=80 ops; distinct = distinct printed texts"})
+                                 "random hints (incl. $ . - characters); parseable corpus chunks <=80 ops; outputs of the corpus files' own RUN pipelines (<= 120 ops); distinct = distinct printed texts"})
     ctx.sample({"source": metas[0]["source"], "hints": metas[0].get("value_hints"), "text": metas[0]["text"][:300]})
     ctx.assumptions += ["attribute / property / type values are compared by Python == after re-parsing (interned tokens); literal fidelity itself is C06 (not applicable)",
                         "equivalence normalisation as the property states: an attribute-dictionary entry named like a declared property counts as that property; a property equal to its declared default counts as absent"]
